@@ -26,6 +26,17 @@
          }
        }
 
+   Single producer (modelled fact).  Every connection has ONE socket reader and the hand-off of a received
+   message into the queue is a synchronous call on that goroutine: tcp Session.Run -> processBuffer ->
+   Conn.pushToReceivedMessageQueue (select { queue <- m | <-ctx.Done() }), udp the session's / server's read loop
+   -> Conn.Process (same select).  The reader does not look at the next frame / datagram before the send of the
+   previous one has completed (it parks on a full queue).  Hence the model has one producer thread whose remaining
+   work is the list [prod] in arrival order and whose only action [APush] appends the head of [prod] to the queue
+   ([Proofs.enqueue_in_order]: for every capacity and every schedule the queue is a contiguous segment of the
+   arrival sequence).  A hand-off that lets several goroutines perform the sends concurrently is NOT an instance of
+   this model; the correspondence cases [Burst] of Reader/Run.v (real tcp / udp connections under bursts larger
+   than the queue) tie the fact to the code.
+
    [fixed c = false] is the code before the repair of F14: PCheck always goes
    back to PSelect.  Go's select picks any ready alternative: the schedule
    carries the choice ([alt]) and [step] only checks that it is ready. *)
